@@ -30,6 +30,8 @@ namespace MEM
         unsigned char* allocatedBlock;
         unsigned char* endBlock;
         unsigned char* current;
+        /** Allocations that did not fit in the block (chained, freed by Release()). */
+        void* overflowList = nullptr;
     };
 
     class ChildPreAllocator
